@@ -456,4 +456,65 @@ theorem handleGame_plain (e : Events σ ε) (p : Pkt) (ps : List Pkt) (st : σ) 
     | some x => rfl
     | none => rfl
 
+/-! ### resumed runs -/
+
+theorem handleAll_fail (e : Events σ ε) (pre : List Pkt) :
+    ∀ (q : Pkt) (post : List Pkt) (st st1 st2 : σ) (x : End ε), handleAll e pre st = (st1, none) →
+      handlePacket e q st1 = (st2, some x) → handleAll e (pre ++ q :: post) st = (st2, some x) := by
+  induction pre with
+  | nil =>
+    intro q post st st1 st2 x hpre hq
+    simp only [handleAll, Prod.mk.injEq, and_true] at hpre
+    subst hpre
+    simp only [List.nil_append, handleAll, hq]
+  | cons p pre ih =>
+    intro q post st st1 st2 x hpre hq
+    simp only [List.cons_append, handleAll] at hpre ⊢
+    cases hp : handlePacket e p st with
+    | mk s o =>
+      rw [hp] at hpre
+      cases o with
+      | some y => simp at hpre
+      | none => exact ih q post s st1 st2 x hpre hq
+
+/-- `handleGameR` is `handleGameF` plus the remaining packets -/
+theorem handleGameR_proj (e : Events σ ε) :
+    ∀ (f : Nat) (ps : List Pkt) (st : σ),
+      ((handleGameR e f ps st).1, (handleGameR e f ps st).2.1) = handleGameF e f ps st := by
+  intro f
+  induction f with
+  | zero => intro ps st; rfl
+  | succ f ih =>
+    intro ps st
+    cases ps with
+    | nil => rfl
+    | cons p ps =>
+      simp only [handleGameR, handleGameF]
+      split
+      · cases collect bundleLimit [] ps with
+        | readErr => rfl
+        | limit => rfl
+        | closed inner rest =>
+          simp only
+          cases handleAll e inner st with
+          | mk s o =>
+            cases o with
+            | some x => rfl
+            | none => exact ih rest s
+      · cases handlePacket e p st with
+        | mk s o =>
+          cases o with
+          | some x => rfl
+          | none => exact ih ps s
+
+theorem handleGameRest_bundle_error (e : Events σ ε) (d d' q : Pkt) (pre post rest : List Pkt) (st st1 st2 : σ)
+    (x : End ε) (hd : d.id = bundleDelimiter) (hd' : d'.id = bundleDelimiter) (hn : NoDelim (pre ++ q :: post))
+    (hl : (pre ++ q :: post).length < bundleLimit)
+    (hpre : handleAll e pre st = (st1, none)) (hq : handlePacket e q st1 = (st2, some x)) :
+    handleGameRest e (d :: ((pre ++ q :: post) ++ d' :: rest)) st = (st2, x, rest) := by
+  simp only [handleGameRest, List.length_cons, handleGameR, hd, if_true]
+  rw [collect_closed (pre ++ q :: post) bundleLimit [] d' rest hn hd' hl]
+  simp only [List.nil_append]
+  rw [handleAll_fail e pre q post st st1 st2 x hpre hq]
+
 end GoMC.Lemmas.Dispatch
